@@ -284,6 +284,10 @@ type Typedef struct {
 	Units       *Value `yang:"units"`
 
 	YangType *YangType `json:"-"`
+
+	// resolving is set while the typedef's own type is being resolved; it
+	// is used to detect a typedef that is defined in terms of itself.
+	resolving bool
 }
 
 func (Typedef) Kind() string             { return "typedef" }
